@@ -60,9 +60,12 @@ func (r *Eval) Run(ctx context.Context, script []byte) (Object, *Bytecode, error
 	}
 
 	r.VM.modulesCache = r.ModulesCache
-	ret, err := r.run(ctx)
+	ret, ran, err := r.run(ctx)
 	r.ModulesCache = r.VM.modulesCache
-	r.Locals = r.VM.GetLocals(r.Locals)
+	if ran {
+		// the stack holds the locals only if the script was started
+		r.Locals = r.VM.GetLocals(r.Locals)
+	}
 	r.VM.Clear()
 
 	if err != nil {
@@ -71,7 +74,7 @@ func (r *Eval) Run(ctx context.Context, script []byte) (Object, *Bytecode, error
 	return ret, bytecode, nil
 }
 
-func (r *Eval) run(ctx context.Context) (ret Object, err error) {
+func (r *Eval) run(ctx context.Context) (ret Object, ran bool, err error) {
 	ret = Undefined
 	doneCh := make(chan struct{})
 	// Always check whether context is done before running VM because
@@ -83,6 +86,7 @@ func (r *Eval) run(ctx context.Context) (ret Object, err error) {
 		r.VM.Abort()
 		err = ctx.Err()
 	default:
+		ran = true
 		verifSync(r.VM, "eval.spawn")
 		go func() {
 			defer close(doneCh)
